@@ -15,7 +15,7 @@ import (
 func init() { register("C16", checkC16) }
 
 func checkC16(c *core.Ctx, r *core.Report) {
-	r.Explanation = "[NUMBERS — a handler that decodes a document into map[string]interface{} and encodes it again for storage decodes with UseNumber] [POOL — an event object taken from writer.plePool carries no field value of its previous use when it is handed out: reset-on-get (Reset after Get and every other field assigned unconditionally) or reset-on-put (every Put preceded by Reset)] C16 (all ingest protocols preserve event content and time), timestamp flow only: " +
+	r.Explanation = "[the extraction with the index-specific timestamp key runs for every event of a batch in ProcessIndexRequestPle] [FLATTEN — in the per-key callback of the JSON flattener every successful return is preceded by the hand-over of the value to a value handler (no key is dropped early)] [NUMBERS — a handler that decodes a document into map[string]interface{} and encodes it again for storage decodes with UseNumber] [POOL — an event object taken from writer.plePool carries no field value of its previous use when it is handed out: reset-on-get (Reset after Get and every other field assigned unconditionally) or reset-on-put (every Put preceded by Reset)] C16 (all ingest protocols preserve event content and time), timestamp flow only: " +
 		"(1) fallback discipline — every ParsedLogEvent.SetTimestamp in a function that extracts a timestamp from the document either stores the extracted value where it is known non-zero, or stores something else only where the extracted value (or the event's current timestamp) is known to be zero: a time the event already carries is never overwritten by a fallback; " +
 		"(2) the OTLP log handler sets the event time from the record's time_unix_nano; " +
 		"(3) the timestamp argument of every metrics.EncodeDatapoint call depends on the payload and on no current-time source; " +
@@ -27,6 +27,8 @@ func checkC16(c *core.Ctx, r *core.Report) {
 
 	checkPooledEvent(c, r)
 	checkGenericDocumentNumbers(c, r)
+	checkFlattenerDispatch(c, r)
+	checkIndexTimestampKey(c, r)
 
 	setTs := c.Obj(pkgWriter, "ParsedLogEvent.SetTimestamp")
 	getTs := c.Obj(pkgWriter, "ParsedLogEvent.GetTimestamp")
